@@ -18,7 +18,8 @@ RULE = ("Serial: pairs (a, n) and (a, b) from a grid incl. 0, 1, 999, 2^53-1, 2^
 TRUSTED = ["Python's int / datetime / list arithmetic as the value-level reference"]
 ASSUMPTIONS = ["float operands are left out (the property names ints, timedeltas, triples and formatter objects)"]
 
-BIG = [0, 1, 2, 7, 9, 10, 99, 100, 999, 1000, 2 ** 53 - 1, 2 ** 53, 2 ** 53 + 1, 10 ** 18, 10 ** 30 + 7]
+BIG = [0, 1, 2, 7, 9, 10, 99, 100, 999, 1000, 2 ** 53 - 1, 2 ** 53, 2 ** 53 + 1, 10 ** 18, 10 ** 30 + 7,
+       10 ** 308, 9 * 10 ** 308, 2 ** 1023, 2 ** 1024 - 1, 10 ** 400 + 7]  # beyond the largest float: still exact integers
 WRONG = ["x", "", None, [1], (1,), {"a": 1}, {1}, object(), b"1", Ellipsis]
 
 
@@ -50,11 +51,15 @@ def sweep_serial(sw, r, tier):
     if tier == "quick":
         pairs = r.sample(pairs, min(len(pairs), 400))
     for a, n in pairs:
-        A = serial_obj(r, a)
-        B = serial_obj(r, n)
-        sa, sb = snap(A), snap(B)
         case = {"cls": "serial", "a": a, "b": n}
         sw.note(["serial", a, n], "serial")
+        try:
+            A = serial_obj(r, a)
+            B = serial_obj(r, n)
+        except Exception as e:  # noqa: BLE001
+            sw.check(False, "a serial of a non-negative integer cannot be made", {**case, "clause": "serial-make"}, "a Serial", f"{type(e).__name__}: {str(e)[:80]}")
+            continue
+        sa, sb = snap(A), snap(B)
 
         def chk(op, fn, want):
             try:
@@ -210,7 +215,11 @@ def sweep_groups(sw, r, tier):
                 vals[nm] = f"{r.randrange(100)}.{r.randrange(100)}.{r.randrange(100)}"; deltas[nm] = (r.randrange(5), r.randrange(5), r.randrange(5))
                 p = [int(x) for x in vals[nm].split(".")]
                 want[nm] = VerPackage.parse(".".join(str(p[i] + deltas[nm][i]) for i in range(3)))
-        g = G({nm: corr_fmt.KINDS[k].from_value(vals[nm]) for nm, k in decl})
+        try:
+            g = G({nm: corr_fmt.KINDS[k].from_value(vals[nm]) for nm, k in decl})
+        except Exception as e:  # noqa: BLE001
+            sw.check(False, "a group of values inside the domain cannot be made", {"clause": "group-make", "decl": [f"{a}:{b}" for a, b in decl], "values": {k_: str(v_)[:40] for k_, v_ in vals.items()}}, None, f"{type(e).__name__}: {str(e)[:80]}")
+            continue
         before = {nm: snap(g.groups[nm]) for nm, _ in decl}
         for kk in range(1, len(decl) + 1):
             for inc in itertools.combinations([nm for nm, _ in decl], kk):
